@@ -64,6 +64,15 @@ func init() {
 				// value clauses: neutral elements, X·Y=Z·T preservation, Z=0 rejected by the importer
 				c.e9Neutral(cfg)
 				c.e9ZeroAccept(cfg)
+				// closure of validity under the operations that produce Points: the group operations are the (complete)
+				// group law as identities of rational functions (the obligations of C02), and the scalar
+				// multiplications — tables, selectors, drivers — produce exact group sums of their inputs (the
+				// group-domain obligations of C01, in which coordinate arithmetic that is not a verified or recognised
+				// group operation is undecided)
+				c.e9GroupLaw(cfg)
+				c.ruleLookupTables(cfg)
+				c.ruleScalarMultLoops(cfg)
+				c.ruleVarTimeLoops(cfg)
 			}
 		},
 	})
